@@ -356,8 +356,8 @@ func runC15(tier string, seed uint64, out *Out) {
 			total += len(b)
 		}
 		// one line for the compressor, one for the decompressor on the compressor's own output
-		want1 := out.only < 0 || out.only == out.n
-		want2 := out.only < 0 || out.only == out.n+1
+		want1 := out.WantAt(out.n)
+		want2 := out.WantAt(out.n + 1)
 		if !want1 && !want2 {
 			out.n += 2
 			return
